@@ -40,6 +40,10 @@ struct OpCtx
     int io_fault_fired{IO_NONE};
     uint64_t ceiling{0};  // allocs + io_calls limit (0 = none)
     int dlopen_refused{0};
+    uint64_t xml_allocs{0};  // allocations made by libxml2 during the call (xmlMemSetup seam; counted, never failed)
+    uint64_t xml_bytes{0};
+    /** deterministic cost of the call so far: libutap allocations + I/O callbacks + libxml2 memory in 64-byte units */
+    uint64_t cost() const { return allocs + io_calls + xml_bytes / 64; }
 };
 extern OpCtx g_op;
 
